@@ -1005,3 +1005,276 @@ Proof.
   unfold rel_key. fold (sdot (join (k :: l))). rewrite after_dot_append by exact Hroot.
   eapply get_path; eauto. discriminate.
 Qed.
+
+(* ------------------------------------------------------------------ removal by dotted key *)
+Fixpoint is_prefix (a b : list string) : bool :=
+  match a, b with
+  | [], _ => true
+  | x :: a', y :: b' => String.eqb x y && is_prefix a' b'
+  | _ :: _, [] => false
+  end.
+
+(* a node without what hangs below it *)
+Definition shallow (p : param) : param := match p with Leaf _ _ _ _ _ => p | Map h _ => Map h [] end.
+
+Lemma remove_path : forall n l p x,
+  wf n p -> In (l, x) (paths p) -> l <> [] ->
+  exists p', remove_at l p = Val (p', x) /\ node_at p' l = None /\
+             forall l', is_prefix l l' = false ->
+                        option_map shallow (node_at p' l') = option_map shallow (node_at p l').
+Proof.
+  intros n l. induction l as [|k r IH]; intros p x Hwf Hin Hne; [congruence|].
+  destruct (node_at_paths _ _ _ _ Hwf Hin) as [Hn _].
+  destruct p as [|h ch]; [discriminate|]. simpl in Hn.
+  destruct (find_child k ch) as [c|] eqn:Ec; [|discriminate].
+  destruct (wf_children_nodup _ _ _ Hwf) as [Hnd _].
+  inversion Hwf as [|? ? _ Hch _]; subst.
+  assert (Hc : wf n c) by (rewrite Forall_forall in Hch; apply Hch; eapply find_child_in; eauto).
+  assert (Hkc : pkey c = k) by (eapply find_child_key; eauto).
+  destruct r as [|k2 r2].
+  - simpl in Hn. inversion Hn; subst. simpl. rewrite Ec.
+    eexists. split; [reflexivity|]. split.
+    + simpl. rewrite find_child_remove_same by exact Hnd. reflexivity.
+    + intros l' Hp. destruct l' as [|k' r']; [reflexivity|]. simpl in Hp.
+      rewrite andb_true_r in Hp. simpl.
+      rewrite find_child_remove_other by (apply eqb_false_sym, Hp). reflexivity.
+  - apply paths_node_at in Hn.
+    destruct (IH c x Hc Hn ltac:(discriminate)) as (c' & Hr & Hgone & Hframe).
+    simpl. rewrite Ec. simpl in Hr. rewrite Hr.
+    assert (Hk' : pkey c' = k).
+    { destruct (remove_at_wf n (k2 :: r2) c c' x Hc Hr) as (_ & Hh & _). unfold pkey. rewrite Hh. exact Hkc. }
+    eexists. split; [reflexivity|]. split.
+    + simpl. rewrite (find_child_replace_same k c c' ch Ec Hk'). exact Hgone.
+    + intros l' Hp. destruct l' as [|k' r']; [reflexivity|]. simpl in Hp. simpl.
+      destruct (String.eqb k k') eqn:Ek.
+      * apply String.eqb_eq in Ek. subst k'. simpl in Hp.
+        rewrite (find_child_replace_same _ c c' ch Ec Hk'), Ec. apply Hframe, Hp.
+      * rewrite find_child_replace_other; [reflexivity | exact Hk' | apply eqb_false_sym, Ek].
+Qed.
+
+(* T6: every descendant is removable by its dotted key: remove hands back
+   exactly that parameter, the key no longer resolves, every key that does not
+   extend the removed one resolves as before, and the tree stays well-formed *)
+Theorem remove_by_extended_key : forall n root ek x,
+  wf n root -> has_dot (pkey root) = false ->
+  In (ek, x) (ext_keys EmptyString root) -> ek <> pkey root ->
+  exists root',
+    step_root repaired n root (ORemove (rel_key ek)) = (root', OParam (pid x)) /\
+    get root' (rel_key ek) = Raise KeyError /\ wf n root' /\
+    forall key', is_prefix (segments (rel_key ek)) (segments key') = false ->
+                 option_map shallow (node_at root' (segments key')) = option_map shallow (node_at root (segments key')).
+Proof.
+  intros n root ek x Hwf Hroot Hin Hne. rewrite ext_keys_paths in Hin.
+  apply in_map_iff in Hin. destruct Hin as ([l y] & Heq & Hin). simpl in Heq. inversion Heq; subst.
+  destruct l as [|k l]; [simpl in Hne; congruence|].
+  unfold rel_key. fold (sdot (join (k :: l))). rewrite after_dot_append by exact Hroot.
+  destruct (node_at_paths _ _ _ _ Hwf Hin) as [_ Hk].
+  assert (Hseg : segments (join (k :: l)) = k :: l).
+  { apply segments_join; [discriminate|]. eapply Forall_impl; [|exact Hk]. intros ? [_ H]. exact H. }
+  destruct (remove_path n (k :: l) root x Hwf Hin ltac:(discriminate)) as (root' & Hr & Hgone & Hframe).
+  exists root'. unfold step_root, get. rewrite Hseg, Hr, Hgone.
+  destruct (remove_at_wf n _ _ _ _ Hwf Hr) as (H1 & _ & _).
+  repeat split; auto.
+Qed.
+
+(* ================================================================== T7: duplicate keys are refused *)
+Theorem duplicate_refused_map : forall p h ch,
+  In (pkey p) (map pkey ch) -> map_add p (Map h ch) = Raise ValueError.
+Proof.
+  intros p h ch Hin. simpl. unfold has_key.
+  destruct (find_child (pkey p) ch) eqn:E; [reflexivity|].
+  apply find_child_none in E. contradiction.
+Qed.
+
+(* both ways of adding (constructor with parent=..., and parent.add) refuse a
+   key that the addressed map already holds, and leave the tree as it was;
+   when the arguments are otherwise acceptable the error is the ValueError
+   raised by add *)
+Theorem duplicate_refused : forall n root pp s h ch,
+  node_at root (psegs pp) = Some (Map h ch) -> In (s_key s) (map pkey ch) ->
+  (exists e, step_root repaired n root (OAddCtor pp s) = (root, ORaise e) /\
+             (ctor_checks repaired s (Some (Map h ch)) = None -> e = ValueError)) /\
+  (exists e, step_root repaired n root (OAddMeth pp s) = (root, ORaise e) /\
+             (ctor_checks repaired s None = None -> e = ValueError)).
+Proof.
+  intros n root pp s h ch Hn Hin.
+  assert (Hm : modify (psegs pp) (map_add (node_of n s)) root = Raise ValueError).
+  { eapply modify_raise_at; [exact Hn|]. apply duplicate_refused_map. rewrite node_of_key. exact Hin. }
+  split; simpl; rewrite Hn; simpl.
+  - destruct (ctor_checks repaired s (Some (Map h ch))) as [e|]; [exists e; split; [reflexivity | discriminate]|].
+    rewrite Hm. exists ValueError. auto.
+  - destruct (ctor_checks repaired s None) as [e|]; [exists e; split; [reflexivity | discriminate]|].
+    rewrite Hm. exists ValueError. auto.
+Qed.
+
+(* ================================================================== T8: order of children *)
+(* global: in every reachable tree every map lists its children by display
+   priority, ties in creation = insertion order, under distinct well-formed keys *)
+Theorem children_sorted : forall ops h ch,
+  In (Map h ch) (nodes (st_root (run repaired init ops))) ->
+  StronglySorted hord_lt (map phdr ch) /\ NoDup (map pkey ch) /\ Forall key_ok (map pkey ch).
+Proof.
+  intros ops h ch Hin.
+  pose proof (wf_nodes _ _ (run_wf ops init init_wf) _ Hin) as Hwf.
+  destruct (wf_children_nodup _ _ _ Hwf). inversion Hwf as [|? ? _ _ Hok]; subst.
+  destruct Hok as (_ & _ & Hs). auto.
+Qed.
+
+(* local: add() puts the new parameter behind every child whose priority is
+   <= its own and before the others, and leaves the others as they were *)
+Theorem add_is_stable_insertion : forall p h ch x',
+  StronglySorted prio_le ch -> map_add p (Map h ch) = Val x' ->
+  exists l1 l2, ch = l1 ++ l2 /\ x' = Map h (l1 ++ p :: l2) /\
+                Forall (fun y => (pprio y <= pprio p)%Q) l1 /\ Forall (fun y => (pprio p < pprio y)%Q) l2.
+Proof.
+  intros p h ch x' Hs H. simpl in H. destruct (has_key (pkey p) ch); [discriminate|].
+  inversion H; subst. rewrite py_sorted_append by exact Hs.
+  destruct (place_split p ch Hs) as (l1 & l2 & H1 & H2 & H3 & H4).
+  exists l1, l2. rewrite H2. auto.
+Qed.
+
+(* the sort used by add() (sorted() with the parameters' own __lt__) is a
+   stable sort: a permutation, ordered by priority, and for every priority
+   class the members keep their relative order *)
+Lemma insert_sorted_perm : forall x l, Permutation (insert_sorted x l) (x :: l).
+Proof.
+  induction l as [|y l IH]; simpl; [apply Permutation_refl|].
+  destruct (prio_ltb y x); [|apply Permutation_refl].
+  eapply perm_trans; [apply perm_skip, IH | apply perm_swap].
+Qed.
+
+Lemma prio_ltb_false : forall a b, prio_ltb a b = false -> prio_le b a.
+Proof. unfold prio_ltb, prio_le. intros a b H. apply negb_false_iff in H. apply Qle_bool_iff, H. Qed.
+
+Lemma prio_ltb_true : forall a b, prio_ltb a b = true -> (pprio a < pprio b)%Q.
+Proof.
+  unfold prio_ltb. intros a b H. apply negb_true_iff in H. apply Qnot_le_lt. intro Hle.
+  apply Qle_bool_iff in Hle. congruence.
+Qed.
+
+Lemma insert_sorted_sorted : forall x l, StronglySorted prio_le l -> StronglySorted prio_le (insert_sorted x l).
+Proof.
+  intros x l Hs. induction Hs as [|y r Hr IH Hy]; simpl; [repeat constructor|].
+  destruct (prio_ltb y x) eqn:E.
+  - constructor; [exact IH|].
+    eapply Permutation_Forall; [apply Permutation_sym, insert_sorted_perm|].
+    constructor; [apply Qlt_le_weak, prio_ltb_true, E | exact Hy].
+  - apply prio_ltb_false in E. constructor; [constructor; assumption|].
+    constructor; [exact E|]. eapply Forall_impl; [|exact Hy].
+    intros z Hz. unfold prio_le in *. eapply Qle_trans; eassumption.
+Qed.
+
+Definition same_prio (q : Q) (p : param) : bool := Qeq_bool (pprio p) q.
+
+Lemma insert_sorted_filter : forall q x l,
+  StronglySorted prio_le l ->
+  filter (same_prio q) (insert_sorted x l) = filter (same_prio q) (x :: l).
+Proof.
+  intros q x l Hs. induction Hs as [|y r Hr IH Hy]; [reflexivity|].
+  simpl insert_sorted. destruct (prio_ltb y x) eqn:E; [|reflexivity].
+  simpl. simpl in IH. rewrite IH.
+  destruct (same_prio q x) eqn:Ex; [|reflexivity].
+  destruct (same_prio q y) eqn:Ey; [|reflexivity].
+  exfalso. apply prio_ltb_true in E. unfold same_prio in *.
+  apply Qeq_bool_iff in Ex. apply Qeq_bool_iff in Ey. rewrite Ex, Ey in E. apply (Qlt_irrefl _ E).
+Qed.
+
+Theorem py_sorted_is_stable_sort : forall l,
+  Permutation (py_sorted l) l /\ StronglySorted prio_le (py_sorted l) /\
+  forall q, filter (same_prio q) (py_sorted l) = filter (same_prio q) l.
+Proof.
+  unfold py_sorted. induction l as [|x l (IH1 & IH2 & IH3)]; simpl.
+  - repeat split; constructor.
+  - repeat split.
+    + eapply perm_trans; [apply insert_sorted_perm | apply perm_skip, IH1].
+    + apply insert_sorted_sorted, IH2.
+    + intros q. rewrite insert_sorted_filter by exact IH2. simpl. rewrite IH3. reflexivity.
+Qed.
+
+(* ================================================================== T9: model-level round trip *)
+Lemma set_value_key : forall q v x x', set_value q v x = Val x' -> pkey x' = pkey x.
+Proof.
+  intros q v x x' H. apply set_value_val in H. destruct H as (h & ro & c & d & v0 & -> & -> & _). reflexivity.
+Qed.
+
+(* set_parameter(key, v) that returns normally, followed by get_parameter(key),
+   returns v; the same holds for set_value on the object followed by the
+   model-level get *)
+Theorem model_set_get_roundtrip : forall n m root path v root',
+  step_root repaired n root (OModelSet path v) = (root', ONone) ->
+  step_root repaired m root' (OModelGet path) = (root', OValue v).
+Proof.
+  intros n m root path v root' H. simpl in H.
+  destruct (modify (segments path) (set_value repaired v) root) as [r|e] eqn:E; inversion H; subst.
+  apply modify_inv in E; [|intros x x'; apply set_value_key].
+  destruct E as (_ & x & x' & Hn & Hs & Hn').
+  apply set_value_repaired_val in Hs. destruct Hs as (h & c & d & v0 & -> & -> & _).
+  simpl. unfold get. rewrite Hn'. reflexivity.
+Qed.
+
+(* and set_parameter does return normally for every valid value of a writable
+   parameter addressed by an existing key *)
+Theorem model_set_accepts_valid : forall n root path h c d v0 v,
+  node_at root (segments path) = Some (Leaf h false c d v0) -> valid_for c v = true ->
+  exists root', step_root repaired n root (OModelSet path v) = (root', ONone).
+Proof.
+  intros n root path h c d v0 v Hn Hv. simpl.
+  destruct (modify_val_at (segments path) (set_value repaired v) root _ (Leaf h false c d v) Hn) as [r Hr].
+  - apply set_value_decides. auto.
+  - rewrite Hr. eauto.
+Qed.
+
+(* it refuses, with the tree unchanged, in every other case *)
+Theorem model_set_rejects : forall n root path v e,
+  snd (step_root repaired n root (OModelSet path v)) = ORaise e ->
+  fst (step_root repaired n root (OModelSet path v)) = root.
+Proof. intros. eapply rejected_unchanged_root; eauto. Qed.
+
+(* ================================================================== T10: failed construction is not registered *)
+Theorem failed_construction_not_registered : forall n root pp s e,
+  snd (step_root repaired n root (OAddCtor pp s)) = ORaise e ->
+  fst (step_root repaired n root (OAddCtor pp s)) = root.
+Proof. intros. eapply rejected_unchanged_root; eauto. Qed.
+
+(* ================================================================== the pinned snapshot (13808df) *)
+(* The three defects of the snapshot, as behaviour of [step pinned]; each was
+   replayed on the snapshot's code.  /repo has since been repaired (commits
+   67d3f71, bc11b41, a3d4ad7) and the correspondence check runs [repaired]. *)
+Open Scope string_scope.
+
+Definition wit_str_spec : pspec := mkSpec "s" 1 true SStr (VStr "a").
+
+Lemma pinned_read_only_str_changes :
+  exists ops h c d v,
+    In (Leaf h true c d v) (nodes (st_root (run pinned init ops))) /\ v <> d.
+Proof.
+  exists [OAddCtor None wit_str_spec; OSet "s" (VStr "b")].
+  exists (mkHdr 1 "s" 1), CStr, (VStr "a"), (VStr "b").
+  split; [vm_compute; auto | discriminate].
+Qed.
+
+Definition wit_int_tree : param :=
+  Map (mkHdr 0 "root" 1) [Leaf (mkHdr 1 "n" 1) false (CInt (NI 0) (NI 10)) (VInt 5) (VInt 5)].
+
+Lemma pinned_model_set_raises :
+  exists n root path v h c d v0,
+    node_at root (segments path) = Some (Leaf h false c d v0) /\ valid_for c v = true /\
+    step_root pinned n root (OModelSet path v) = (root, ORaise AttributeError).
+Proof.
+  exists 2%nat, wit_int_tree, "n", (VInt 7), (mkHdr 1 "n" 1), (CInt (NI 0) (NI 10)), (VInt 5), (VInt 5).
+  vm_compute. auto.
+Qed.
+
+Definition wit_bad_spec : pspec := mkSpec "x" 1 false (SInt (NI 0) (NI 10)) (VInt 50).
+
+Lemma pinned_failed_construction_registered :
+  exists n root pp s e,
+    snd (step_root pinned n root (OAddCtor pp s)) = ORaise e /\
+    fst (step_root pinned n root (OAddCtor pp s)) <> root /\
+    exists p, In p (nodes (fst (step_root pinned n root (OAddCtor pp s)))) /\ ~ leaf_ok p.
+Proof.
+  exists 1%nat, (st_root init), None, wit_bad_spec, ValueError.
+  split; [vm_compute; reflexivity|]. split; [vm_compute; discriminate|].
+  exists (Leaf (mkHdr 1 "x" 1) false (CInt (NI 0) (NI 10)) (VInt 50) (VInt 50)).
+  split; [vm_compute; auto|]. vm_compute. intros [H _]. discriminate.
+Qed.
